@@ -90,7 +90,7 @@ def run(ctx):
     if ctx.replay_case:
         case = ctx.replay_case["case"]
         jobmap["replay"] = (case["script"], case["zclass"], case["rel"], "replay")
-        traces = [c10_txn.replay(case["script"], case["zclass"], case["rel"], "replay")]
+        jobs = [jobmap["replay"]]
     else:
         ctx.model("MC_ZoneTxn", "MC_ZoneTxn_quick.cfg" if quick else "MC_ZoneTxn_thorough.cfg")
         scripts = []
@@ -130,26 +130,40 @@ def run(ctx):
                 spellings=tset(["abs"]), addforms=tset(["rdataset"]), delforms=tset(["rdata"]), kinds=tset(["write"]),
                 repl="{FALSE}", ends=tset(["raise"])))
         # G4: long random behaviours over the full universe
-        n = 1500 if quick else 30000
+        n = 1500 if quick else 6000
         scripts += ctx.generate("Gen_ZoneTxn", gen_cfg(ctx, "g4.cfg", maxops=12, ops=tset(ALL), kinds=tset(["write"])),
                                 simulate="num=%d" % n, depth=16, seed=ctx.seed + 1, deadlock=False, limit=4 * n)
         jobs = []
         for i, s in enumerate(scripts):
             # quick: two of the six zone configurations per script (spread deterministically);
             # thorough: all six
-            cfgs = ZCONFIGS if not quick else [ZCONFIGS[i % 6], ZCONFIGS[(i // 6 + i + 3) % 6]]
+            if quick:
+                cfgs = [ZCONFIGS[i % 6], ZCONFIGS[(i // 6 + i + 3) % 6]]
+            elif len(s) > 5 or i % 2:   # thorough: all six for single calls, three of six for longer scripts
+                cfgs = [ZCONFIGS[i % 6], ZCONFIGS[(i + 2) % 6], ZCONFIGS[(i + 4 + i // 6) % 6]]
+            else:
+                cfgs = ZCONFIGS
             for zc, rel in dict.fromkeys(cfgs):
                 jobs.append((s, zc, rel, "s%d.%s.%s" % (i, zc, "rel" if rel else "abs")))
         ctx.extra["scripts"] = len(scripts)
         jobmap = {j[3]: j for j in jobs}
-        traces = ctx.pmap(c10_txn.run_job, jobs)
         nontrivial = sum(1 for s in scripts if any(e["op"] not in ("init", "begin", "end", "get", "exists", "getnode", "names", "changed") for e in s))
         ctx.extra["nontrivial_scripts"] = nontrivial
         ctx.distinct = set(j[3] for j in jobs if any(e["op"] not in ("init", "begin", "end", "get", "exists", "getnode", "names", "changed") for e in j[0]))
-        for tr in traces[:3]:
-            ctx.sample({"tid": tr["tid"], "ev": tr["ev"][:4]})
-    ctx.evaluations = len(traces)
-    rejects = ctx.validate("Trace_ZoneTxn", "Trace_ZoneTxn.cfg", traces)
+    # replay and validate in batches (keeps memory bounded in the thorough tier)
+    rejects = []
+    total = 0
+    BATCH = 120000
+    for b in range(0, len(jobs), BATCH):
+        part = jobs[b:b + BATCH]
+        traces = [c10_txn.replay(*part[0])] if ctx.replay_case else ctx.pmap(c10_txn.run_job, part)
+        if b == 0:
+            for tr in traces[:3]:
+                ctx.sample({"tid": tr["tid"], "ev": tr["ev"][:4]})
+        total += len(traces)
+        rejects += ctx.validate("Trace_ZoneTxn", "Trace_ZoneTxn.cfg", traces)
+        del traces
+    ctx.evaluations = total
     for tr, line, clause in rejects:
         sig = classify(tr, line, clause)
         e = tr["ev"][line - 1] if line else {}
